@@ -513,6 +513,8 @@ type caseWitness struct {
 	// concurrent-signing rounds (conc_test.go): which other messages were inside
 	// RewriteBody of the same modify.dkim instance together with this one
 	Round any `json:"concurrent_round,omitempty"`
+	// sign-fault group (signfault_test.go): how the body failed under the signer
+	SignFault *signFault `json:"body_error_while_signing,omitempty"`
 }
 
 func clip(b []byte) string {
@@ -1373,5 +1375,17 @@ func TestVerif(t *testing.T) {
 			continue
 		}
 		r.Run(idx, fmt.Sprintf("conc-%d", rn), func(c *rep.Case) { h.runConcRound(c, idx, rn) })
+	}
+	// body errors under the signer (signfault_test.go)
+	nsf := r.N(112, 1400)
+	if os.Getenv("C08_ONLYCONC") != "" {
+		nsf = 0
+	}
+	for j := 0; j < nsf; j++ {
+		idx := signFaultBase + j
+		if only >= 0 && idx != only {
+			continue
+		}
+		r.Run(idx, fmt.Sprintf("signfault-%d", j), func(c *rep.Case) { h.runSignFaultCase(c, idx, j) })
 	}
 }
